@@ -19,28 +19,28 @@ Local Open Scope R_scope.
 (** * Q2R on canonical rationals *)
 
 Lemma Q2R_Qc_add (a b : Qc) : Q2R (a + b)%Qc = Q2R a + Q2R b.
-Proof. rewrite <- Q2R_plus. apply Qeq_eqR. cbn. apply Qred_correct. Qed.
+Proof. rewrite <- Q2R_plus. apply Qeq_eqR. unfold Qcplus, Q2Qc. cbn [this]. apply Qred_correct. Qed.
 Lemma Q2R_Qc_mul (a b : Qc) : Q2R (a * b)%Qc = Q2R a * Q2R b.
-Proof. rewrite <- Q2R_mult. apply Qeq_eqR. cbn. apply Qred_correct. Qed.
+Proof. rewrite <- Q2R_mult. apply Qeq_eqR. unfold Qcmult, Q2Qc. cbn [this]. apply Qred_correct. Qed.
 Lemma Q2R_Qc_opp (a : Qc) : Q2R (- a)%Qc = - Q2R a.
-Proof. rewrite <- Q2R_opp. apply Qeq_eqR. cbn. apply Qred_correct. Qed.
+Proof. rewrite <- Q2R_opp. apply Qeq_eqR. unfold Qcopp, Q2Qc. cbn [this]. apply Qred_correct. Qed.
 Lemma Q2R_Qc_sub (a b : Qc) : Q2R (a - b)%Qc = Q2R a - Q2R b.
 Proof. unfold Qcminus. rewrite Q2R_Qc_add, Q2R_Qc_opp. reflexivity. Qed.
 Lemma Q2R_Qc_0 : Q2R 0%Qc = 0. Proof. cbn. unfold Q2R; cbn. lra. Qed.
 Lemma Q2R_Qc_1 : Q2R 1%Qc = 1. Proof. cbn. unfold Q2R; cbn. lra. Qed.
 Lemma Q2R_Qc_inv (a : Qc) : a <> 0%Qc -> Q2R (/ a)%Qc = / Q2R a.
 Proof. intros H. rewrite <- Q2R_inv.
-  - apply Qeq_eqR. cbn. apply Qred_correct.
+  - apply Qeq_eqR. unfold Qcinv, Q2Qc. cbn [this]. apply Qred_correct.
   - intro E. apply H. apply Qc_is_canon. exact E. Qed.
 Lemma Q2R_Qc_div (a b : Qc) : b <> 0%Qc -> Q2R (a / b)%Qc = Q2R a / Q2R b.
 Proof. intros H. unfold Qcdiv. rewrite Q2R_Qc_mul, Q2R_Qc_inv by assumption. reflexivity. Qed.
 
 Definition Z2Qc (z : Z) : Qc := Q2Qc (inject_Z z).
 Lemma Q2R_Z2Qc z : Q2R (Z2Qc z) = IZR z.
-Proof. unfold Z2Qc. rewrite (Qeq_eqR _ (inject_Z z)) by (cbn; apply Qred_correct).
+Proof. unfold Z2Qc. rewrite (Qeq_eqR _ (inject_Z z)) by (unfold Q2Qc; cbn [this]; apply Qred_correct).
   unfold Q2R, inject_Z; cbn. field. Qed.
 Lemma Z2Qc_neq0 z : z <> 0%Z -> Z2Qc z <> 0%Qc.
-Proof. intros H E. apply (f_equal Q2R) in E. rewrite Q2R_Z2Qc, Q2R_Qc_0 in E.
+Proof. intros H E. apply (f_equal (fun q : Qc => Q2R q)) in E. rewrite Q2R_Z2Qc, Q2R_Qc_0 in E.
   apply eq_IZR in E. contradiction. Qed.
 Lemma Q2R_inj_Qc (a b : Qc) : Q2R a = Q2R b -> a = b.
 Proof. intros H. apply Qc_is_canon. apply eqR_Qeq. exact H. Qed.
@@ -73,7 +73,7 @@ Lemma cis_0 : cis 0 = RtoC 1. Proof. unfold cis; now rewrite cos_0, sin_0. Qed.
 Lemma cis_opp t : cis (- t) = Cconj (cis t).
 Proof. unfold cis, Cconj; cbn. now rewrite cos_neg, sin_neg. Qed.
 Lemma Cmod_cis t : Cmod (cis t) = 1.
-Proof. unfold Cmod, cis; cbn. rewrite <- sqrt_1. f_equal.
+Proof. unfold Cmod, cis; cbn [fst snd]. replace (cos t ^ 2 + sin t ^ 2) with 1; [apply sqrt_1|].
   pose proof (sin2_cos2 t) as H. unfold Rsqr in H. lra. Qed.
 
 Lemma cos_period_Z x (k : Z) : cos (x + 2 * IZR k * PI) = cos x.
@@ -173,26 +173,27 @@ Definition RS : Scalar :=
 Lemma CS_ring : is_ring CS. Proof. exact C_ring_theory. Qed.
 Lemma RS_ring : is_ring RS. Proof. exact RTheory. Qed.
 
+Ltac cs := cbn [CS ke kmul kadd k0 k1 kconj kofq K ksub kopp].
 Lemma CS_kernel : kernel_laws CS.
 Proof. split.
-  - intros a b. cbn. rewrite <- cis_add. f_equal. rewrite Q2R_Qc_add. ring.
-  - cbn. rewrite Q2R_Qc_0. replace (- (2 * PI * 0)) with 0 by ring. apply cis_0. Qed.
+  - intros a b. cs. rewrite <- cis_add. f_equal. rewrite Q2R_Qc_add. ring.
+  - cs. rewrite Q2R_Qc_0. replace (- (2 * PI * 0)) with 0 by ring. apply cis_0. Qed.
 (* the kernel has period one turn *)
 Lemma CS_ke_1 : @ke CS 1%Qc = k1.
-Proof. cbn. rewrite Q2R_Qc_1. replace (- (2 * PI * 1)) with (2 * PI * IZR (-1)) by (simpl; ring).
+Proof. cs. rewrite Q2R_Qc_1. replace (- (2 * PI * 1)) with (2 * PI * IZR (-1)) by (simpl; ring).
   apply cis_2PI_Z. Qed.
 Lemma CS_ke_Z (z : Z) : @ke CS (Z2Qc z) = k1.
-Proof. cbn. rewrite Q2R_Z2Qc. replace (- (2 * PI * IZR z)) with (2 * PI * IZR (- z)) by (rewrite opp_IZR; ring).
+Proof. cs. rewrite Q2R_Z2Qc. replace (- (2 * PI * IZR z)) with (2 * PI * IZR (- z)) by (rewrite opp_IZR; ring).
   apply cis_2PI_Z. Qed.
 Lemma CS_conj : conj_laws CS.
-Proof. split; cbn.
+Proof. split; cs.
   - intros [a b] [c d]. unfold Cconj, Cplus; cbn. f_equal; ring.
   - intros [a b] [c d]. unfold Cconj, Cmult; cbn. f_equal; ring.
   - intros [a b]. unfold Cconj; cbn. f_equal; ring.
   - unfold Cconj, RtoC; cbn. f_equal; ring.
   - intros t. rewrite <- cis_opp. f_equal. rewrite Q2R_Qc_opp. ring. Qed.
 Lemma CS_ke_qz a n : n <> 0%Z -> @ke CS (qz a n) = cis (- (2 * PI * IZR a / IZR n)).
-Proof. intros H. cbn. rewrite Q2R_qz by assumption. f_equal. unfold Rdiv. ring. Qed.
+Proof. intros H. cs. rewrite Q2R_qz by assumption. f_equal. unfold Rdiv. ring. Qed.
 Lemma Cmod_ke t : Cmod (@ke CS t) = 1. Proof. apply Cmod_cis. Qed.
 
 (* sums over CS are the plain complex sums *)
@@ -250,6 +251,7 @@ Proof.
         { subst d. intro E. apply Z.mod_divide in E; [|lia]. destruct E as [q Hq].
           assert (q = 0 \/ q <= -1 \/ 1 <= q)%Z as [Hq0|[Hq1|Hq1]] by lia; [subst q; lia| |]; nia. }
         destruct (Z.eqb_spec (d mod n) 0); [contradiction|]. cbn. ring. }
+  change (RtoC 0) with (@k0 CS).
   rewrite (sumZ_delta CS Rg n y (fun x => Cmult (f x) (RtoC (IZR n)))) by assumption.
   rewrite RtoC_inv by (apply not_0_IZR; lia).
   field. intro H. apply RtoC_inj in H. apply eq_IZR in H. lia.
